@@ -183,6 +183,22 @@ def c07_cases(rng, tier):
                     cases.append(("num-ender", kind + digits + e + b"\r\n"))
                     if d in (29, 30, 31, 32, 33):
                         cases.append(("num-ender", b"*2\r\n:1\r\n" + kind + digits + e + b"\r\n"))
+    # a byte that is not a decimal digit at every position of a short number line: every byte value 0..255 (the neighbours of
+    # '0'..'9' in the code table, their high-bit and low-nibble look-alikes, letters, controls), as integer, bulk length (with
+    # a payload that fits the length a lenient reading would give) and array length
+    for c in range(256):
+        if 48 <= c <= 57:
+            continue
+        cb = bytes([c])
+        for txt in (cb, b"1" + cb, cb + b"1", b"1" + cb + b"2", b"12" + cb):
+            if txt[:1] in b"+-" and txt[1:].isdigit():
+                continue
+            if cb in b"\r\n" and tier == "quick" and len(txt) > 2:
+                continue
+            cases.append(("num-foreign", b":" + txt + b"\r\n"))
+            if len(txt) <= 2 or tier != "quick":
+                cases.append(("num-foreign", b"$" + txt + b"\r\n" + b"x" * ((c & 15) + (10 if len(txt) > 1 and txt[:1] == b"1" else 0)) + b"\r\n"))
+                cases.append(("num-foreign", b"*" + txt + b"\r\n" + b":1\r\n" * (c & 15)))
     for k in range(1, 40):
         cases.append(("num", b":" + str(2**64 * k + rng.randint(0, 9)).encode() + b"\r\n"))
         cases.append(("num", b":-" + str(2**64 * k + rng.randint(0, 9)).encode() + b"\r\n"))
@@ -304,6 +320,11 @@ def run_c07(rep, tier, seed):
             got = int(ip.split(" I:")[1])
             if got != v or not (I64MIN <= v <= I64MAX):
                 report("oracle", b, "an accepted integer does not have the value written (or is outside i64)", f"I:{v}" if I64MIN <= v <= I64MAX else "err notinteger", ip)
+        # whatever is accepted as a number was written as one: the line after `:`, `$` or `*` is an optional sign and decimal digits
+        if ip.startswith("ok ") and b[:1] in b":$*" and b"\r" in b:
+            txt = b[1:b.index(b"\r")]
+            if not _re.fullmatch(rb"[+-]?[0-9]+", txt):
+                report("oracle", b, "a line that is not a decimal number was read as a number (" + {58: "integer", 36: "bulk length", 42: "array length"}[b[0]] + ")", "err", ip[:80])
         mlen = _re.match(rb"\$([+]?[0-9]+)\r\n", b)
         if mlen and ip.startswith("ok ") and " B:" in ip:
             n = int(mlen.group(1))
@@ -388,7 +409,8 @@ def run_c07(rep, tier, seed):
             break
     rep.cov["rule"] = ("exhaustive strings over the alphabet + - : $ * CR LF 0 1 9 a up to length %d; decimal numbers of 1..22 digits and boundary values at "
                        "buffer offsets 0..48 (behind a padding bulk string) and as bulk/array lengths; every truncation and random byte mutations of generated valid "
-                       "messages; null/negative-length/non-UTF-8/odd-line-ending specials; nesting depths up to 2*10^5 (also on a 256 KiB stack); "
+                       "messages; digit runs of 1..70 digits ended by 16 kinds of non-digit bytes; each of the 246 non-digit byte values at every position of a short number line (integer, bulk length, array length: "
+                       "whatever is read as a number must have been written as an optional sign and decimal digits, with that value); null/negative-length/non-UTF-8/odd-line-ending specials; nesting depths up to 2*10^5 (also on a 256 KiB stack); "
                        "non-trivial = distinct input on which check returns ok or a hard error (not merely incomplete)") % (5 if tier == "quick" else 6)
     rep.cov["exhaustive_part"] = "all %d alphabet strings up to length %d" % (sum(11**n for n in range(0, (5 if tier == 'quick' else 6) + 1)), 5 if tier == "quick" else 6)
     rep.cov["traces_validated_against_impl"] = len(lines) + len(dl) + len(ul)
